@@ -8,7 +8,9 @@
 (*  {"e":"Start"} {"e":"SWrite"} ... {"e":"Fault","k":"Flip","u":2} ...      *)
 (*  {"e":"End","o":{"rs":"Finished","re":"FileCorrupt","ss":"Finished",       *)
 (*        "se":"NoError","eq":0,"applied":true,"rlen":..,"slen":..,...}}        *)
-(* o.applied: the proxy really damaged the stream (ground truth of the       *)
+(* o.ann / o.k: what the harness put into the offer (size and/or hash) and   *)
+(* the fault kind it configured; o.applied: the proxy really damaged the      *)
+(* stream (ground truth of the                                                *)
 (* harness); o.eq: the receiver's device holds exactly the sent bytes.        *)
 (* The monitor evaluates the C19 predicates on the observed outcome only;     *)
 (* the model's final state is compared with it (receiver state and error,     *)
@@ -41,12 +43,12 @@ ModelAct(ev) ==
 FailedEnd(o) ==
     LET nflt == IF o.applied THEN 1 ELSE 0 IN
     {p \in {"Safe", "FaultDetected", "CleanSuccess"} :
-        CASE p = "Safe"          -> ~P_Safe(o.rs, o.re, o.eq = 1)
-          [] p = "FaultDetected" -> ~P_FaultDetected(nflt, o.rs, o.re)
+        CASE p = "Safe"          -> ~P_Safe(o.ann, o.rs, o.re, o.eq = 1)
+          [] p = "FaultDetected" -> ~P_FaultDetected(o.ann, o.k, nflt, o.rs, o.re)
           [] p = "CleanSuccess"  -> ~P_CleanSuccess(nflt, TRUE, o.rs, o.re, o.ss, o.se, o.eq = 1)}
 
 ResetStep(ev) ==
-    /\ Reinit(ev.n)
+    /\ Reinit(ev.n, ev.ann)
     /\ cid' = ev.case /\ ncases' = ncases + 1
     /\ UNCHANGED <<viol, ndiv, divs, nfaulted, nclean>>
 
